@@ -28,6 +28,8 @@ FUNCTIONS = [
     "autoarray.inversion.pixelization.mappers.abstract.AbstractMapper.mapping_matrix",
     "autoarray.inversion.pixelization.mappers.abstract.AbstractMapper.unique_mappings",
     "autoarray.inversion.pixelization.mappers.abstract.AbstractMapper.neighbors",
+    "autoarray.inversion.pixelization.mappers.abstract.AbstractMapper.pixel_signals_from",
+    "autoarray.inversion.pixelization.mappers.mapper_util.adaptive_pixel_signals_from",
     "autoarray.inversion.linear_obj.unique_mappings.UniqueMappings.__init__",
     "autoarray.operators.over_sampling.uniform.OverSamplerUniform.sub_fraction",
     "autoarray.operators.over_sampling.uniform.OverSamplerUniform.slim_for_sub_slim",
@@ -43,7 +45,10 @@ BOUNDS = {
              "+-4 of the centroid; index tables: all tables with <=7 mappings over <=3 source pixels by forking (symbolic weights), symbolic tables "
              "(merge interpreter) for <=3 mappings per data pixel; neighbour lists: every history of 2 rectangular meshes with shapes in 3..6 x 3..6, every "
              "history of 3 meshes with equal pixel count and shapes in 3..8, single meshes 3..8, every ordered pair of 6 Delaunay vertex sets - through "
-             "overlay_grid / the constructor / mapper.neighbors / source_plane_mesh_grid.neighbors",
+             "overlay_grid / the constructor / mapper.neighbors / source_plane_mesh_grid.neighbors; fan vertex sets fan7 / fan14 (degree-6 vertex) with the "
+             "sub-pixels of one data pixel spread over triangles touching 7 (sub 2) / 13 (sub 3) distinct vertices; histories on one mapper object: "
+             "pixel_signals_from(signal_scale in {1,2}) before / between pix_sub_weights, mapping_matrix, unique_mappings in 3 listed orders, adapt data "
+             "symbolic (rectangular, and Delaunay with one data pixel) or from a concrete list (Delaunay with several data pixels)",
     "thorough": "same scheme with sub sizes 1..4, meshes up to 7x8, masks of 2x3 by forking, vertex set v9, two free points per Delaunay case, symbolic-box "
                 "mapper case with a free third point, every assignment of the extremes for 3 points, index tables with up to 10 mappings; neighbour histories: "
                 "pairs 3..8, equal-pixel triples 3..10, singles 3..12, triples of Delaunay sets",
@@ -59,6 +64,9 @@ OUTSIDE = [
     "scales makes the line itself uncertain by ~1e-16); the containment obligation covers them with bounds widened by the same 1e-9 pixel",
     "float64 rounding in general (exact real arithmetic; 1e-9 relative tolerance where the code accumulates concrete floats such as 9 x fl(1/9))",
     "vertex sets / meshes / sub-size maps beyond the listed ones; more than 2 unconfined sub-pixels per case",
+    "mapper-object histories other than the 3 listed call orders; the VALUE returned by pixel_signals_from (not part of C06; only its effect on the mapper's "
+    "other products is checked); symbolic signal_scale (the code raises to that power) and symbolic adapt data for Delaunay mappers with more than one data "
+    "pixel (bilinear comparisons in np.max: the solver does not terminate)",
 ]
 STUBS = [
     "scipy.spatial.Delaunay.find_simplex on symbolic points: replaced by the harness-chosen simplex index t per sub-pixel (forked over every simplex and -1, or "
